@@ -13,7 +13,13 @@ import (
 	"strings"
 )
 
-func c05EncValue(v interface{}, out []string) []string {
+func c05EncValue(v interface{}, out []string) []string { return c05EncDepth(v, out, 0) }
+
+// c05EncDepth: a value that refers to itself (a map stored inside itself) is cut off, not followed for ever.
+func c05EncDepth(v interface{}, out []string, depth int) []string {
+	if depth > 24 {
+		return append(out, "s:"+hx("<cycle>"))
+	}
 	switch x := v.(type) {
 	case nil:
 		return append(out, "n")
@@ -35,7 +41,7 @@ func c05EncValue(v interface{}, out []string) []string {
 	case []interface{}:
 		out = append(out, "L:"+strconv.Itoa(len(x)))
 		for _, e := range x {
-			out = c05EncValue(e, out)
+			out = c05EncDepth(e, out, depth+1)
 		}
 		return out
 	case map[string]interface{}:
@@ -47,13 +53,13 @@ func c05EncValue(v interface{}, out []string) []string {
 		out = append(out, "M:"+strconv.Itoa(len(x)))
 		for _, k := range keys {
 			out = append(out, hx(k))
-			out = c05EncValue(x[k], out)
+			out = c05EncDepth(x[k], out, depth+1)
 		}
 		return out
 	case []map[string]interface{}:
 		out = append(out, "L:"+strconv.Itoa(len(x)))
 		for _, e := range x {
-			out = c05EncValue(e, out)
+			out = c05EncDepth(e, out, depth+1)
 		}
 		return out
 	default:
